@@ -123,7 +123,7 @@ func VerifC17_parseTimeOfDay() {
 // bytes: no panic; accepted exactly when hhmmss is in range and the rest is a zone letter (optionally
 // after white space, optionally followed by white space); clock and offset have the documented values.
 func VerifC17_parseTimeOfDayShape() {
-	l := vrt.Range("len", 7, 8)
+	l := vrt.Range("len", 7, vrt.Param("SHAPEMAX", 8))
 	s := asciiStrC17(l)
 	for i := 0; i < 6; i++ {
 		vrt.Assume(digitC17(s[i]))
